@@ -6,6 +6,7 @@ import common
 import gen_prog
 import pipeline
 import semcheck
+import cmdsim
 
 # names the bash back-end owns or inherits from the shell (patterns); renaming INTO this set is the
 # region of the known finding "reserved-identifiers-not-rejected"
@@ -179,6 +180,26 @@ def local_names(prog):
 LOCAL_COLLIDES = r"_h\d+|_ma\d+"
 
 
+def _sim(script):
+    try:
+        out, st = cmdsim.run(script)
+        return ("ok", out, st)
+    except cmdsim.Stuck as e:
+        return ("stuck", str(e), None)
+    except cmdsim.Budget:
+        return ("budget", "", None)
+    except (RecursionError, MemoryError):
+        return ("budget", "recursion/memory", None)
+
+
+def case_clash(names):
+    """two distinct identifiers that are equal when letter case is ignored (cmd.exe's view of names)"""
+    low = {}
+    for n in set(names):
+        low.setdefault(n.lower(), set()).add(n)
+    return sorted(sorted(v) for v in low.values() if len(v) > 1)
+
+
 def run(res, b, tier, seed):
     rng = random.Random(seed * 6151 + 10)
     pr = common.prove("C10")
@@ -201,13 +222,18 @@ def run(res, b, tier, seed):
         if not ids:
             continue
         locs = local_names(prog)
+        # the program as generated: reference point of the Batch comparison below
+        cases.append(pipeline.Case("p%d_orig" % pi, {"main.tsh": src.encode()},
+                                   meta=dict(expected_out=out, expected_status=status, src=src, original=src, renaming="none (the program as generated)", reserved=[],
+                                             group=pi, is_orig=True, clash=case_clash(ids), **kf)))
         # (c) a scope-consistent renaming that is not injective: locals / parameters of different functions get the
         #     same names, globals defined after a function reuse its local names (all legal, meaning unchanged)
         rp0 = gen_prog.reuse_names(rng, prog)
         rsrc0 = gen_prog.pp_program(rp0)
         if rsrc0 != src:
             cases.append(pipeline.Case("p%d_reuse" % pi, {"main.tsh": rsrc0.encode()},
-                                       meta=dict(expected_out=out, expected_status=status, src=rsrc0, original=src, renaming="reuse of names across scopes", reserved=[], **kf)))
+                                       meta=dict(expected_out=out, expected_status=status, src=rsrc0, original=src, renaming="reuse of names across scopes", reserved=[],
+                                                 group=pi, clash=case_clash(identifiers(rp0)), **kf)))
         for ri in range(nren):
             reserved = ri % 2 == 1
             pool = [n for n in (RESERVED_POOL if reserved else NEUTRAL_POOL) if n not in KEYWORDS]
@@ -233,6 +259,7 @@ def run(res, b, tier, seed):
             rsrc = gen_prog.pp_program(rp)
             cases.append(pipeline.Case("p%d_%d" % (pi, ri), {"main.tsh": rsrc.encode()},
                                        meta=dict(expected_out=out, expected_status=status, src=rsrc, original=src, renaming=m, **kf,
+                                                 group=pi, clash=case_clash(identifiers(rp)),
                                                  reserved=sorted(v for v in m.values() if is_reserved(v)),
                                                  reserved_known=sorted(v for k_, v in m.items() if is_reserved(v) and (k_ not in locs or re.fullmatch(LOCAL_COLLIDES, v))))))
     # directed programs (written from the property text): the same identifier spelled in several scopes at once
@@ -245,17 +272,41 @@ def run(res, b, tier, seed):
         cases.append(pipeline.Case("corpus-" + name, {"main.tsh": j["src"].encode()},
                                    meta=dict(expected_out=j["stdout"], expected_status=j["status"], src=j["src"], original=j["src"],
                                              renaming="directed program: " + j.get("note", ""), reserved=[])))
-    dis, fails = semcheck.check_cases(b, cases)
+    dis, fails = semcheck.check_cases(b, cases, stages="asw")
+    # Batch target, metamorphic: the script of a renamed program must behave (under the cmd model) like the script of the program
+    # as generated - whatever that behaviour is (64-bit literals etc. are outside the cmd model's reference, equality is not)
+    groups = {}
+    for c in cases:
+        if "group" in c.meta and c.out.get("BATCH", ("", ""))[0] == "OK":
+            groups.setdefault(c.meta["group"], []).append(c)
+    todo = [c for g in groups.values() if any(x.meta.get("is_orig") for x in g) for c in g]
+    sims = common.pmap_proc(_sim, [bytes.fromhex(c.out["BATCH"][1]).decode("utf-8", "replace") for c in todo], chunksize=4)
+    for c, r in zip(todo, sims):
+        c.meta["cmd"] = r
+    nbatch = 0
+    for g in groups.values():
+        orig = [x for x in g if x.meta.get("is_orig")]
+        if not orig or orig[0].meta["cmd"][0] != "ok":
+            continue
+        r0 = orig[0].meta["cmd"]
+        for c in g:
+            if c.meta.get("is_orig"):
+                continue
+            nbatch += 1
+            if c.meta["cmd"] != r0:
+                fails.append((c, "batch-behaviour", dict(original_under_cmd_model=str(r0)[:400], renamed_under_cmd_model=str(c.meta["cmd"])[:400],
+                                                         names_equal_ignoring_case=c.meta.get("clash") or orig[0].meta.get("clash"))))
     res.coverage.update(dict(
         evaluations=len(cases),
         distinct_nontrivial=len({c.meta["src"] for c in cases}),
         rule="generated programs (functions, slices, strings) x injective renamings of all their variables, parameters and functions: (a) into neutral legal "
              "identifiers incl. names differing only in letter case, (b) one or two identifiers into the pool of names the bash back-end reserves for itself "
              "or inherits from the shell (%d names), (c) one scope-consistent non-injective renaming per program (locals of different functions share names); reference = behaviour of the original program; a transpile error is also acceptable; distinct = distinct "
-             "renamed programs" % len(RESERVED_POOL),
+             "renamed programs; Batch target: the script of every renamed program is run under the cmd model and must behave like the script of the program as generated" % len(RESERVED_POOL),
         samples=[dict(renaming=cases[1].meta["renaming"], program=cases[1].meta["src"][:400])],
         correspondence=dict(stage="AST + bash script (whole model pipeline)", compared=len(cases), disagreements=len(dis)),
         oracle_failures=len(fails),
+        batch_comparisons=nbatch,
         renamings=dict(neutral=sum(1 for c in cases if not c.meta["reserved"]), into_reserved=sum(1 for c in cases if c.meta["reserved"])),
     ))
     real = []
@@ -265,6 +316,11 @@ def run(res, b, tier, seed):
         # the known finding: a GLOBAL variable or a function spelled like a name the back-end or the shell owns, or a local
         # spelled like a helper / temporary of its own function; a local spelled like an unprefixed compiler name does not collide
         if c.meta.get("reserved_known") and res.known_finding("reserved-identifiers-not-rejected", kind):
+            continue
+        # Batch: names that differ only in letter case are one name for cmd.exe
+        if kind == "batch-behaviour" and detail.get("names_equal_ignoring_case") and res.known_finding("batch-names-case-insensitive", kind):
+            continue
+        if kind == "batch-behaviour" and c.meta.get("reserved") and res.known_finding("reserved-identifiers-not-rejected", kind):
             continue
         if kind == "behaviour" and c.meta.get("switch_break") and res.known_finding("break-in-switch", kind):
             continue
